@@ -26,6 +26,11 @@ Defines(sc, layer, f) == CASE layer = "env" -> f \in sc.env
 Resolve(sc, f) == LET i == CHOOSE i \in 1..4 : Defines(sc, Layers[i], f) /\ \A j \in 1..(i-1) : ~Defines(sc, Layers[j], f)
                   IN ValueFrom(Layers[i], f)
 Scenarios == [env : SUBSET Fields, secretfile : BOOLEAN, file : SUBSET Fields]
+\* The environment layer, field by field.  Every field that has an environment spelling is reachable from it, and a text-typed field takes the
+\* variable's text VERBATIM -- the layer does not re-interpret text that happens to look like a number or a boolean ("007" stays "007").
+EnvFields == {"timeout", "address", "auth_secret", "limit", "duration", "allow_v1", "allow_v2", "server_id"}
+TextFields == {"address", "auth_secret", "server_id"}
+EnvResolved(f, given) == given          \* what Config::read() must hold for field f when only the environment defines it, as text
 \* design facts
 EnvWins == \A sc \in Scenarios : \A f \in sc.env : Resolve(sc, f) = "env:" \o f
 SecretFileBeatsFile == \A sc \in Scenarios : (sc.secretfile /\ "auth_secret" \notin sc.env) => Resolve(sc, "auth_secret") = "secretfile"
